@@ -264,8 +264,8 @@ def collect_schedules(chk: Check, thorough: bool):
     chk.cov['cover_paths_c2'] = len(paths)
 
     # (2) random behaviours of the 3-caller model
-    num = 6000 if thorough else 1500
-    behs, sres = tlc.simulate_behaviours(SPEC, 'MC_c3.cfg', num=num, depth=14, seed=chk.seed + 1, timeout=900)
+    num = 30000 if thorough else 1500
+    behs, sres = tlc.simulate_behaviours(SPEC, 'MC_c3.cfg', num=num, depth=16 if thorough else 14, seed=chk.seed + 1, timeout=900)
     n3 = 0
     for b in behs:
         init = _init_key(b[0][1])
